@@ -45,14 +45,14 @@ Definition expected_inventory : list (string * string * string * string) := [
   ("extcall", "core", "JApiCore.getIncludedFilePath", "filepath.Join");
   ("extcall", "core", "JApiCore.getIncludedFilePath", "os.Stat");
   ("extcall", "core", "readFile", "os.ReadFile");
-  ("maprange", "catalog", "NewExchangeJSightSchema", "coreRules");
-  ("maprange", "catalog", "ObjectBuilder.AddProperty", "types");
-  ("maprange", "catalog/ser/openapi", "contentForVariousMediaTypes", "schemaObjectsMap");
-  ("maprange", "catalog/ser/openapi", "makeResponseHeaders", "sortedHeaders");
-  ("maprange", "catalog/ser/openapi", "newResponses", "sortedResponses");
-  ("maprange", "core", "JApiCore.buildUserTypes", "core.rules");
-  ("maprange", "core", "JApiCore.getPropertiesNames", "m");
-  ("maprange", "core", "newPathVariablesSchema", "userTypes");
+  ("maprange", "catalog", "NewExchangeJSightSchema", "coreRules : map[string]schema.Rule");
+  ("maprange", "catalog", "ObjectBuilder.AddProperty", "types : map[string]ischema.Type");
+  ("maprange", "catalog/ser/openapi", "contentForVariousMediaTypes", "schemaObjectsMap : map[openapi.mediaType][]openapi.schemaObject");
+  ("maprange", "catalog/ser/openapi", "makeResponseHeaders", "sortedHeaders : map[string][]openapi.headerInfo");
+  ("maprange", "catalog/ser/openapi", "newResponses", "sortedResponses : map[openapi.responseCode][]*catalog.HTTPResponse");
+  ("maprange", "core", "JApiCore.buildUserTypes", "core.rules : map[string]schema.Rule");
+  ("maprange", "core", "JApiCore.getPropertiesNames", "m : map[string]ischema.Node");
+  ("maprange", "core", "newPathVariablesSchema", "userTypes : map[string]*jschema.JSchema");
   ("once", "catalog", "ExchangeJSightSchema.Compile", "e.onceCompile");
   ("once", "catalog", "ExchangeRegexSchema.exampleOnce", "e.example.once");
   ("once", "directive", "NewDirectiveType", "eeOnce");
@@ -130,14 +130,14 @@ Definition expected_keys : list (string * string * string) := [
   ("extcall", "core", "filepath.Join");
   ("extcall", "core", "os.Stat");
   ("extcall", "core", "os.ReadFile");
-  ("maprange", "catalog", "NewExchangeJSightSchema");
-  ("maprange", "catalog", "ObjectBuilder.AddProperty");
-  ("maprange", "catalog/ser/openapi", "contentForVariousMediaTypes");
-  ("maprange", "catalog/ser/openapi", "makeResponseHeaders");
-  ("maprange", "catalog/ser/openapi", "newResponses");
-  ("maprange", "core", "JApiCore.buildUserTypes");
-  ("maprange", "core", "JApiCore.getPropertiesNames");
-  ("maprange", "core", "newPathVariablesSchema");
+  ("maprange", "catalog", "map[string]schema.Rule");
+  ("maprange", "catalog", "map[string]ischema.Type");
+  ("maprange", "catalog/ser/openapi", "map[openapi.mediaType][]openapi.schemaObject");
+  ("maprange", "catalog/ser/openapi", "map[string][]openapi.headerInfo");
+  ("maprange", "catalog/ser/openapi", "map[openapi.responseCode][]*catalog.HTTPResponse");
+  ("maprange", "core", "map[string]schema.Rule");
+  ("maprange", "core", "map[string]ischema.Node");
+  ("maprange", "core", "map[string]*jschema.JSchema");
   ("once", "catalog", "");
   ("once", "catalog", "");
   ("once", "directive", "");
